@@ -53,6 +53,8 @@ pub enum Damage {
     RandomBytes(u64, usize),
     Foreign,
     InsertGarbage(usize, u8),
+    /// a saved global whose value is a variable pointer leading back to itself (1) or round a cycle of two (2)
+    PointerCycle(usize, u8),
 }
 
 fn kind(d: &Damage) -> &'static str {
@@ -67,6 +69,7 @@ fn kind(d: &Damage) -> &'static str {
         Damage::Empty => "empty",
         Damage::RandomBytes(..) => "random",
         Damage::Foreign => "foreign",
+        Damage::PointerCycle(..) => "pointer_cycle",
     }
 }
 
@@ -353,6 +356,25 @@ pub fn apply(doc: &str, d: &Damage) -> Option<Vec<u8>> {
             Some((0..*len).map(|_| r.next_u64() as u8).collect())
         }
         Damage::Foreign => Some(FOREIGN_SAVE.as_bytes().to_vec()),
+        Damage::PointerCycle(idx, len) => {
+            // well-formed tokens, a meaning no story produces: x -> x, or x -> y -> x (saves only)
+            let mut j: J = serde_json::from_str(doc).ok()?;
+            // the globals that the save itself mentions are declared ones
+            let names: Vec<String> = j.get("variablesState")?.as_object()?.keys().cloned().collect();
+            if names.is_empty() {
+                return None;
+            }
+            let a = names[*idx % names.len()].clone();
+            let b = names[(*idx / 7 + 1) % names.len()].clone();
+            let vars = j.get_mut("variablesState")?.as_object_mut()?;
+            if *len <= 1 || a == b {
+                vars.insert(a.clone(), json!({"^var": a, "ci": 0}));
+            } else {
+                vars.insert(a.clone(), json!({"^var": b, "ci": 0}));
+                vars.insert(b.clone(), json!({"^var": a, "ci": 0}));
+            }
+            Some(j.to_string().into_bytes())
+        }
     }
 }
 
@@ -437,7 +459,7 @@ fn generate(corpus: &Corpus, tier: Tier, run: u64, rng: &mut Rng) -> Option<Case
                         1 => Damage::Empty,
                         2 => Damage::RandomBytes(rng.next_u64(), 1 + rng.below(300)),
                         3 => Damage::Foreign,
-                        _ => Damage::Truncate(1 + rng.below(3)),
+                        _ => Damage::PointerCycle(rng.below(1000), 1 + rng.below(2) as u8),
                     },
                 });
             }
